@@ -15,6 +15,7 @@ REAL = "real code from the /repo working tree"
 PROPERTIES = {}
 NOT_APPLICABLE = {}
 ENGINE_KINDS = {
+    "grosys": "one SystemGro shared by several live iterators and one-shot indexed/sliced accesses; seeded scheduler decides which consumer steps next; independent parse of the file as oracle",
     "mc": "Alignment.align_molecules -> minimize_molecules -> python Monte-Carlo loop under the random seam (seeded stream + override script); call-through monitors on Chi2Calculator / accept_metropolis / move_mol_atom / find_atom_random_displ / rotation_matrix; reference model of the loop bookkeeping",
     "xmap": "one ExchangeMap under a generated call / rejection / mutation history; reference model of the map; fresh-map differential; in-situ monitor on every frame; random seam for the frame completion of 1-/2-atom references",
     "topo": "generated and shipped .itp files on the simulated disk: read_topology / MoleculeTop / are_connected against the generator's ground truth (stack budget as resource knob); read-write-read-write-read histories compared by an independent line classifier",
@@ -291,3 +292,20 @@ _reg("C17", level="exploration",
      components={"rotation_matrix": REAL, "calcule_base": REAL, "callers": "ExchangeMap and the MC loop, real code"},
      schedule_dimension="call histories on a map; the random stream of the MC loop",
      probes=["collinear_frame", "coincident_middle_point"])
+
+
+_reg("C12", engine="grosys", level="exploration",
+     runs={"quick": 6000, "thorough": 300000}, block=50,
+     technique="seeded scheduler over cooperative consumers (live generators + random access) of one SystemGro that share a single file cursor; every returned residue checked against an independent parse",
+     level_text=("Sampled files (1..400 residues of 1..12 atoms; repeated, alternating and random residue kinds; equal names with "
+                 "different sizes; boundaries where only the number or only the name changes; equal consecutive (number, name) "
+                 "records that merge; with/without velocities; rectangular/triclinic box) and sampled schedules of up to 200 steps "
+                 "over 1..4 live iterators on the SAME SystemGro interleaved with indexed (any sign, out of range), sliced (all sign "
+                 "combinations, steps +-1..3) and whole-file accesses.  Every residue handed out must equal the file's records "
+                 "whatever was read before."),
+     level_note=("Trusted: the independent fixed-width parser.  Residue names start with a letter (a leading digit makes the "
+                 "library's residue identifier 'number+name' ambiguous; the property is not tested there)."),
+     rule=("one run = one file + one access schedule; non-trivial = the file loaded; distinct = distinct sequences of (operation, outcome)"),
+     components={"SystemGro": REAL, "GroFile reader (seek_atom / next)": REAL, "file": "real tmpfs file; the shared cursor is the library's own"},
+     schedule_dimension="which consumer of the shared file handle steps next",
+     probes=["two_live_iterators_mid_file", "negative_step_slice", "equal_name_different_size_adjacent"])
